@@ -748,7 +748,8 @@ class C06(Prop):
                   "intersection is the length of the common z-interval; plane distance^2 is defined for every pair, >= 0, 0 for "
                   "identical footprints, equals the mean of the squared distances of corresponding corners over two ADJACENT ground-truth "
                   "corners that are nearest to the ego (British-flag argument), and is invariant under a common rotation about the ego. "
-                  "The exact clipper returns the footprint itself (area l*w, IoU 1) when a box is clipped by itself. "
+                  "The exact clipper returns the footprint itself (area l*w, IoU 1) when a box is clipped by itself, and for any two polygons "
+                  "every vertex of its result lies inside every clip edge and inside the subject's convex hull (soundness half). "
                   "Exactness of shapely's area for rotated boxes is validated, not proved: every run compares IoU2D/IoU3D with the exact "
                   "clipper inside Coq and with an independent exact hull-based intersection in the Python oracle, within 1e-9.")
     level_note = ("partial: the identification of shapely's (or the clipper's) area with the measure of the intersection of two ROTATED "
@@ -778,7 +779,9 @@ class C06(Prop):
         "that shapely's intersection().area -- or the Sutherland-Hodgman evaluator clip_area -- equals the Lebesgue measure of the "
         "intersection of two ROTATED rectangles (needs measure theory; mathcomp-analysis is not installed): validated against clip_area "
         "and an independent exact hull computation on every run instead",
-        "clip_area >= 0 / <= min area / symmetry for arbitrary convex inputs (only clip(b, b) = b and its area are proved)",
+        "for the evaluator clip_area: completeness (nothing of the intersection is missing), area >= 0 / <= min area, symmetry and rigid "
+        "invariance for arbitrary convex inputs (proved: clip(b, b) = b with area l*w; every result vertex lies in both polygons); "
+        "that the hypotheses about `inter` hold for shapely (proved satisfiable by a coarse instance, validated numerically for shapely)",
         "roll/pitch != 0, POLYGON shapes (BEV centre distance fallback), frames other than BASE_LINK: outside the model",
         "binary64 rounding: theorems are over Q; agreement with the floats is measured (1e-9), not proved",
     ]
